@@ -107,8 +107,8 @@ Definition sp_bal_of (id : Z) (ps : list sp_dpool) : Z :=
 
 (* ---------- lock ---------- *)
 
-Lemma sp_lock_moves_exact : forall tx cbal sp vs sp' trs,
-  sp_stake_pool_lock tx cbal sp vs = Some (sp', trs) ->
+Lemma sp_lock_moves_exact_core : forall tx cbal sp vs sp' trs,
+  sp_stake_pool_lock_core tx cbal sp vs = Some (sp', trs) ->
   trs = [{| tr_from := tx_client tx; tr_to := tx_to tx; tr_amount := tx_value tx |}] /\
   tx_value tx <> 0 /\ vs_min vs <= tx_value tx /\
   (exists bal, cbal = Some bal /\ tx_value tx <= bal) /\
@@ -120,7 +120,7 @@ Lemma sp_lock_moves_exact : forall tx cbal sp vs sp' trs,
   (sp_find (tx_client tx) (sp_pools sp) = None -> Z.of_nat (length (sp_pools sp)) < ss_maxdel (sp_set sp)) /\
   sp_reward sp' = sp_reward sp /\ sp_set sp' = sp_set sp /\ sp_killed sp' = sp_killed sp.
 Proof.
-  unfold sp_stake_pool_lock, sp_validate_lock, sp_lock_pool, sp_bal_of.
+  unfold sp_stake_pool_lock_core, sp_validate_lock, sp_lock_pool, sp_bal_of.
   intros tx cbal sp vs sp' trs H.
   destruct (Z.eqb_spec (tx_value tx) 0) as [|Hv0]; [discriminate|].
   destruct (Z.ltb_spec (tx_value tx) (vs_min vs)) as [|Hmin]; [discriminate|].
@@ -170,9 +170,9 @@ Definition sp_charge_part (minter client : Z) (sp : sp_pool) : list sp_transfer 
 Definition sp_reward_part (minter client : Z) (dp : sp_dpool) : list sp_transfer :=
   if dp_reward dp >? 0 then [{| tr_from := minter; tr_to := client; tr_amount := dp_reward dp |}] else [].
 
-Lemma sp_unlock_pays_exact : forall minter ssc client offers sp sp' trs,
+Lemma sp_unlock_core_pays_exact : forall minter ssc client offers sp sp' trs,
   sp_sorted (sp_pools sp) ->
-  sp_unlock minter ssc client offers sp = Some (sp', trs) ->
+  sp_unlock_core minter ssc client offers sp = Some (sp', trs) ->
   exists dp, sp_find client (sp_pools sp) = Some dp /\
     trs = sp_charge_part minter client sp ++ sp_reward_part minter client dp ++
           [{| tr_from := ssc; tr_to := client; tr_amount := dp_bal dp |}] /\
@@ -182,7 +182,7 @@ Lemma sp_unlock_pays_exact : forall minter ssc client offers sp sp' trs,
     sp_reward sp' = (if (client =? ss_wallet (sp_set sp)) && (sp_reward sp >? 0) then 0 else sp_reward sp) /\
     sp_set sp' = sp_set sp /\ sp_killed sp' = sp_killed sp /\ sp_sorted (sp_pools sp').
 Proof.
-  unfold sp_unlock, sp_mint_rewards, sp_charge_part, sp_reward_part.
+  unfold sp_unlock_core, sp_mint_rewards, sp_charge_part, sp_reward_part.
   intros minter ssc client offers sp sp' trs Hsorted H.
   destruct (sp_find client (sp_pools sp)) as [dp|] eqn:Hf; [|discriminate].
   exists dp. split; [reflexivity|].
@@ -217,9 +217,9 @@ Qed.
 
 (* nobody else can unlock: without an own pool the call fails; with one, only that pool is
    touched and every transfer goes to the caller (previous lemma) *)
-Lemma sp_unlock_needs_own_pool : forall minter ssc client offers sp,
-  sp_find client (sp_pools sp) = None -> sp_unlock minter ssc client offers sp = None.
-Proof. intros. unfold sp_unlock. rewrite H. reflexivity. Qed.
+Lemma sp_unlock_core_needs_own_pool : forall minter ssc client offers sp,
+  sp_find client (sp_pools sp) = None -> sp_unlock_core minter ssc client offers sp = None.
+Proof. intros. unfold sp_unlock_core. rewrite H. reflexivity. Qed.
 
 Lemma sp_stake_sum_shift : forall ps a s, sp_stake_sum ps a = Some s -> 0 <= a ->
   Forall (fun p => 0 <= dp_bal p) ps -> forall b, 0 <= b <= a -> sp_stake_sum ps b = Some (s - (a - b)).
@@ -248,12 +248,12 @@ Proof.
 Qed.
 
 (* storagesc Empty: after a successful unlock the remaining stake still covers the offers *)
-Lemma sp_unlock_keeps_offers_covered : forall minter ssc client off sp sp' trs,
+Lemma sp_unlock_core_keeps_offers_covered : forall minter ssc client off sp sp' trs,
   Forall (fun p => 0 <= dp_bal p) (sp_pools sp) ->
-  sp_unlock minter ssc client (Some off) sp = Some (sp', trs) ->
+  sp_unlock_core minter ssc client (Some off) sp = Some (sp', trs) ->
   exists s', sp_stake sp' = Some s' /\ off <= s'.
 Proof.
-  unfold sp_unlock. intros minter ssc client off sp sp' trs HF H.
+  unfold sp_unlock_core. intros minter ssc client off sp sp' trs HF H.
   destruct (sp_find client (sp_pools sp)) as [dp|] eqn:Hf; [|discriminate].
   destruct (sp_mint_rewards minter client sp) as [[[sp1 t1] amount]|] eqn:Hm; [|discriminate].
   destruct (sp_int64 (dp_bal dp)); [|discriminate]. destruct (sp_int64 amount); [|discriminate].
@@ -290,23 +290,23 @@ Proof.
 Qed.
 
 (* round trip: a fresh lock followed by an unlock returns exactly the locked value *)
-Lemma sp_lock_then_unlock_returns : forall tx cbal sp vs sp1 trs1 minter,
+Lemma sp_lock_then_unlock_core_returns : forall tx cbal sp vs sp1 trs1 minter,
   sp_sorted (sp_pools sp) -> sp_find (tx_client tx) (sp_pools sp) = None ->
   tx_value tx < 2 ^ 63 -> 0 <= sp_reward sp < 2 ^ 63 ->
-  sp_stake_pool_lock tx cbal sp vs = Some (sp1, trs1) ->
-  exists sp2 trs2, sp_unlock minter (tx_to tx) (tx_client tx) None sp1 = Some (sp2, trs2) /\
+  sp_stake_pool_lock_core tx cbal sp vs = Some (sp1, trs1) ->
+  exists sp2 trs2, sp_unlock_core minter (tx_to tx) (tx_client tx) None sp1 = Some (sp2, trs2) /\
     trs2 = sp_charge_part minter (tx_client tx) sp ++
            [{| tr_from := tx_to tx; tr_to := tx_client tx; tr_amount := tx_value tx |}] /\
     (forall id, sp_find id (sp_pools sp2) = sp_find id (sp_pools sp)).
 Proof.
   intros tx cbal sp vs sp1 trs1 minter Hsorted Hfresh Hv63 Hr63 Hl.
-  pose proof (sp_lock_moves_exact _ _ _ _ _ _ Hl) as (_ & Hv0 & _ & _ & (dp' & Hf' & Hid' & Hb' & _ & _ & Hrw') & Hoth & _ & Hrew & Hset & _).
+  pose proof (sp_lock_moves_exact_core _ _ _ _ _ _ Hl) as (_ & Hv0 & _ & _ & (dp' & Hf' & Hid' & Hb' & _ & _ & Hrw') & Hoth & _ & Hrew & Hset & _).
   unfold sp_bal_of in Hb'. rewrite Hfresh in Hb', Hrw'. simpl in Hb'.
   assert (Hs1 : sp_sorted (sp_pools sp1)).
-  { unfold sp_stake_pool_lock, sp_lock_pool in Hl. destruct (sp_validate_lock tx sp vs); [|discriminate].
+  { unfold sp_stake_pool_lock_core, sp_lock_pool in Hl. destruct (sp_validate_lock tx sp vs); [|discriminate].
     destruct cbal; [|discriminate]. destruct (tx_value tx >? z); [discriminate|]. rewrite Hfresh in Hl.
     inversion Hl; subst. simpl. apply sp_insert_sorted. assumption. }
-  unfold sp_unlock. rewrite Hf'. rewrite (sp_mint_rewards_no_reward _ _ _ _ Hf' Hrw').
+  unfold sp_unlock_core. rewrite Hf'. rewrite (sp_mint_rewards_no_reward _ _ _ _ Hf' Hrw').
   unfold sp_charge_part. rewrite !Hset, !Hrew.
   set (pay := (tx_client tx =? ss_wallet (sp_set sp)) && (sp_reward sp >? 0)).
   assert (Hi1 : sp_int64 (dp_bal dp') = Some (dp_bal dp')) by (unfold sp_int64; destruct (Z.ltb_spec (dp_bal dp') (2 ^ 63)); [reflexivity|lia]).
@@ -427,6 +427,79 @@ Proof.
     + destruct (sp_deferred_ok c incs1 value); inversion H; subst. simpl. exact E.
 Qed.
 
+
+(* ---------- the full entry points (with the EmitStakeEvent overflow test) ---------- *)
+
+Lemma sp_stake_pool_lock_is_core : forall tx cbal sp vs r,
+  sp_stake_pool_lock tx cbal sp vs = Some r -> sp_stake_pool_lock_core tx cbal sp vs = Some r.
+Proof.
+  unfold sp_stake_pool_lock. intros tx cbal sp vs r H.
+  destruct (sp_stake_pool_lock_core tx cbal sp vs) as [[a b]|]; [|discriminate].
+  destruct (sp_stake a); inversion H; reflexivity.
+Qed.
+
+Lemma sp_unlock_is_core : forall minter ssc client offers sp r,
+  sp_unlock minter ssc client offers sp = Some r -> sp_unlock_core minter ssc client offers sp = Some r.
+Proof.
+  unfold sp_unlock. intros minter ssc client offers sp r H.
+  destruct (sp_unlock_core minter ssc client offers sp) as [[a b]|]; [|discriminate].
+  destruct (sp_stake a); inversion H; reflexivity.
+Qed.
+
+Lemma sp_lock_moves_exact : forall tx cbal sp vs sp' trs,
+  sp_stake_pool_lock tx cbal sp vs = Some (sp', trs) ->
+  trs = [{| tr_from := tx_client tx; tr_to := tx_to tx; tr_amount := tx_value tx |}] /\
+  tx_value tx <> 0 /\ vs_min vs <= tx_value tx /\
+  (exists bal, cbal = Some bal /\ tx_value tx <= bal) /\
+  (exists dp', sp_find (tx_client tx) (sp_pools sp') = Some dp' /\ dp_id dp' = tx_client tx /\
+     dp_bal dp' = sp_bal_of (tx_client tx) (sp_pools sp) + tx_value tx /\ dp_bal dp' <= vs_max vs /\
+     dp_staked_at dp' = tx_time tx /\
+     dp_reward dp' = match sp_find (tx_client tx) (sp_pools sp) with Some p => dp_reward p | None => 0 end) /\
+  (forall id, id <> tx_client tx -> sp_find id (sp_pools sp') = sp_find id (sp_pools sp)) /\
+  (sp_find (tx_client tx) (sp_pools sp) = None -> Z.of_nat (length (sp_pools sp)) < ss_maxdel (sp_set sp)) /\
+  sp_reward sp' = sp_reward sp /\ sp_set sp' = sp_set sp /\ sp_killed sp' = sp_killed sp.
+Proof. intros. apply sp_lock_moves_exact_core. apply sp_stake_pool_lock_is_core. assumption. Qed.
+
+Lemma sp_unlock_pays_exact : forall minter ssc client offers sp sp' trs,
+  sp_sorted (sp_pools sp) ->
+  sp_unlock minter ssc client offers sp = Some (sp', trs) ->
+  exists dp, sp_find client (sp_pools sp) = Some dp /\
+    trs = sp_charge_part minter client sp ++ sp_reward_part minter client dp ++
+          [{| tr_from := ssc; tr_to := client; tr_amount := dp_bal dp |}] /\
+    (forall t, In t trs -> tr_to t = client) /\
+    sp_find client (sp_pools sp') = None /\
+    (forall id, id <> client -> sp_find id (sp_pools sp') = sp_find id (sp_pools sp)) /\
+    sp_reward sp' = (if (client =? ss_wallet (sp_set sp)) && (sp_reward sp >? 0) then 0 else sp_reward sp) /\
+    sp_set sp' = sp_set sp /\ sp_killed sp' = sp_killed sp /\ sp_sorted (sp_pools sp').
+Proof. intros. eapply sp_unlock_core_pays_exact; [assumption|]. apply sp_unlock_is_core. eassumption. Qed.
+
+Lemma sp_unlock_needs_own_pool : forall minter ssc client offers sp,
+  sp_find client (sp_pools sp) = None -> sp_unlock minter ssc client offers sp = None.
+Proof. intros. unfold sp_unlock. rewrite sp_unlock_core_needs_own_pool by assumption. reflexivity. Qed.
+
+Lemma sp_unlock_keeps_offers_covered : forall minter ssc client off sp sp' trs,
+  Forall (fun p => 0 <= dp_bal p) (sp_pools sp) ->
+  sp_unlock minter ssc client (Some off) sp = Some (sp', trs) ->
+  exists s', sp_stake sp' = Some s' /\ off <= s'.
+Proof. intros. eapply sp_unlock_core_keeps_offers_covered; [eassumption|]. apply sp_unlock_is_core. eassumption. Qed.
+
+(* round trip; the unlock can only be refused by the overflow test of EmitStakeEvent *)
+Lemma sp_lock_then_unlock_returns : forall tx cbal sp vs sp1 trs1 minter,
+  sp_sorted (sp_pools sp) -> sp_find (tx_client tx) (sp_pools sp) = None ->
+  tx_value tx < 2 ^ 63 -> 0 <= sp_reward sp < 2 ^ 63 ->
+  sp_stake_pool_lock tx cbal sp vs = Some (sp1, trs1) ->
+  exists sp2 trs2, sp_unlock_core minter (tx_to tx) (tx_client tx) None sp1 = Some (sp2, trs2) /\
+    (sp_stake sp2 <> None -> sp_unlock minter (tx_to tx) (tx_client tx) None sp1 = Some (sp2, trs2)) /\
+    trs2 = sp_charge_part minter (tx_client tx) sp ++
+           [{| tr_from := tx_to tx; tr_to := tx_client tx; tr_amount := tx_value tx |}] /\
+    (forall id, sp_find id (sp_pools sp2) = sp_find id (sp_pools sp)).
+Proof.
+  intros tx cbal sp vs sp1 trs1 minter Hs Hf Hv Hr Hl. apply sp_stake_pool_lock_is_core in Hl.
+  destruct (sp_lock_then_unlock_core_returns _ _ _ _ _ _ minter Hs Hf Hv Hr Hl) as (sp2 & trs2 & Hu & Ht & Hfind).
+  exists sp2, trs2. split; [exact Hu|]. split; [|split; assumption].
+  intros Hne. unfold sp_unlock. rewrite Hu. destruct (sp_stake sp2); [reflexivity|contradiction].
+Qed.
+
 Inductive sp_hop := HLock (tx : sp_txn) (cbal : option Z) | HUnlock (client : Z) | HReward (value : Z) | HCollect (client : Z).
 
 (* role of a queued transfer; the minter address of a contract equals the contract address in
@@ -505,7 +578,8 @@ Section History.
     - destruct (sp_stake_pool_lock tx cbal sp vs) as [[a b]|] eqn:E; injection H as <- <-; [|split; [assumption|simpl; lia]].
       pose proof (sp_lock_moves_exact _ _ _ _ _ _ E) as (-> & _ & _ & _ & (dp' & Hf' & _ & Hb' & _) & Hoth & _).
       split.
-      { unfold sp_stake_pool_lock, sp_lock_pool in E. destruct (sp_validate_lock tx sp vs); [|discriminate].
+      { apply sp_stake_pool_lock_is_core in E.
+        unfold sp_stake_pool_lock_core, sp_lock_pool in E. destruct (sp_validate_lock tx sp vs); [|discriminate].
         destruct cbal; [|discriminate]. destruct (tx_value tx >? z); [discriminate|].
         destruct (sp_find (tx_client tx) (sp_pools sp)) as [dp|].
         - destruct (negb _); [discriminate|]. destruct (sp_add_coin _ _); [|discriminate].
